@@ -83,8 +83,13 @@ func Realise(c *x509.Certificate) *x509.Certificate {
 		}
 		v := e.Value
 		if v == nil {
-			// the path only asked whether the extension is present: the typed fields decide its content
-			continue
+			// the path only asked whether the extension is present: for extensions the encoder derives from
+			// typed fields those fields decide the content; any other extension is added with an empty value
+			// (if the parser interprets it and rejects that, the replay ends unconfirmed)
+			if derivedFromFields[k] {
+				continue
+			}
+			v = []byte{}
 		}
 		t.ExtraExtensions = append(t.ExtraExtensions, pkix.Extension{Id: id, Critical: e.Critical, Value: v})
 	}
@@ -103,6 +108,10 @@ func Realise(c *x509.Certificate) *x509.Certificate {
 	}
 	return out
 }
+
+// extensions zcrypto's CreateCertificate writes from typed template fields
+var derivedFromFields = map[string]bool{"2.5.29.14": true, "2.5.29.15": true, "2.5.29.17": true, "2.5.29.18": true, "2.5.29.19": true, "2.5.29.30": true,
+	"2.5.29.31": true, "2.5.29.32": true, "2.5.29.35": true, "2.5.29.37": true, "1.3.6.1.5.5.7.1.1": true}
 
 var oidCertPolicies = asn1.ObjectIdentifier{2, 5, 29, 32}
 
